@@ -78,7 +78,7 @@ class Recorder:
             def succeed(ev, value=None):
                 r = orig(ev, value)
                 if rec.active and hasattr(ev, '_vid') and getattr(ev, 'resource', None) is rec.res:
-                    rec.grants.append(('P' if isinstance(ev, base.Put) else 'G', ev._vid, value))
+                    rec.grants.append(('P' if isinstance(ev, base.Put) else 'G', ev._vid, item_code(value)))
                 return r
             return succeed
         self.patch(ev_mod.Event, 'succeed', make_succeed)
@@ -130,7 +130,7 @@ class Recorder:
                 'get': [getattr(e, '_vid', -1) for e in res.get_queue]}
 
     def item_value(self, it):
-        return it.priority if hasattr(it, 'priority') else it
+        return it.priority if hasattr(it, 'priority') else item_code(it)
 
     def snapshot(self):
         res = self.res
@@ -169,7 +169,24 @@ class Recorder:
                          'grants': grants, 'preempted': ints})
 
 
+def item_code(it):
+    """items are small ints; codes >= 100 stand for their float twins (100 + k is `float(k)`): equal under `==`, yet different
+    objects that a filter can tell apart"""
+    return int(it) + 100 if isinstance(it, float) else it
+
+
+def item_of(code):
+    return float(code - 100) if isinstance(code, int) and code >= 100 else code
+
+
 def mk_filter(spec):
+    g = _mk_filter(spec)
+    f = lambda it: g(item_code(it))  # noqa: E731
+    f.spec = spec
+    return f
+
+
+def _mk_filter(spec):
     kind, *args = spec.split(':')
     args = [int(a) for a in args]
     if kind == 'any':
@@ -206,6 +223,7 @@ def gen_scenario(rng, kind=None):
     elif kind in ('store', 'filterStore', 'priorityStore'):
         sc['capacity'] = rng.choice([None, 1, 2, 3])
         sc['pitem'] = kind == 'priorityStore' and rng.random() < 0.5
+        twins = kind == 'filterStore' and rng.random() < 0.4
         for _ in range(nproc):
             steps = []
             for _ in range(rng.randint(1, 3)):
@@ -214,6 +232,11 @@ def gen_scenario(rng, kind=None):
                       'patience': rng.choice([None, None, 0, 1, 2])}
                 if op == 'get' and kind == 'filterStore':
                     st['filter'] = rng.choice(['any', 'mod:2:0', 'mod:2:1', 'lt:3', 'ge:5', 'eq:4', 'mod:3:1'])
+                if kind == 'filterStore' and twins:
+                    # items that compare equal and are different objects (k and float(k)); filters that tell them apart
+                    st['amount'] = rng.randint(0, 2) + rng.choice([0, 100])
+                    if op == 'get':
+                        st['filter'] = rng.choice(['any', 'ge:100', 'lt:100', 'ge:100', 'lt:100', 'mod:2:0'])
                 steps.append(st)
             sc['procs'].append(steps)
     else:
@@ -266,7 +289,7 @@ def run_impl(sc):
             if kind == 'priorityStore' and sc.get('pitem'):
                 # items wrapped in PriorityItem (ordered by their priority only; the payload repeats it)
                 return res.put(store.PriorityItem(st['amount'], st['amount']))
-            return res.put(st['amount'])
+            return res.put(item_of(st['amount']))
         if kind == 'filterStore':
             return res.get(mk_filter(st.get('filter', 'any')))
         return res.get()
